@@ -30,6 +30,8 @@ func runC15(c *Ctx) {
 	write := c.method("afm", "Metrics", "Write")
 	c.historyIndependence("AFM-HISTORY", 10, read, write)
 	c.afmReadOnlyRule(write)
+	c.afmPerGlyphRule()
+	c.afmOneLineRule()
 	types3 := map[string]*types.TypeName{"Metrics": c.typeObj("afm", "Metrics"), "GlyphInfo": c.typeObj("afm", "GlyphInfo"), "KernPair": c.typeObj("afm", "KernPair")}
 
 	// ---- field coverage
